@@ -174,6 +174,7 @@ fn generate(seed: u64, tier: Tier, em: &mut Emitter) {
         }
         let nsteps = rng.below(13) as usize;
         let (steps, _) = gen_program(&mut rng, &src, &o, nsteps, parts);
+        let parts = match maybe_auto(&mut rng, &steps, Mode::Par(parts), 8) { Mode::Par(n) => n, Mode::Seq => parts };
         emit_pair(em, &src, &steps, parts, &["random"]);
     }
     spread.finish(em);
